@@ -42,6 +42,12 @@ def strip_rec(t, steady):
     return tuple(strip_rec(x, steady) if isinstance(x, tuple) else x for x in t)
 
 
+def pm_strip(t):
+    while isinstance(t, tuple) and t and t[0] == "call" and isinstance(t[1], str) and t[1].rsplit("::", 1)[-1] in ("clone", "to_owned", "borrow", "deref", "into_iter", "iter") and len(t[2]) == 1:
+        t = t[2][0]
+    return t
+
+
 def one_formula(ty):
     """The validator's first parameter is a single formula text (not a list / iterator of them)."""
     return "str" in ty.lower() and not any(k in ty for k in ("Vec<", "[", "Iterator", "IntoIter", "Iter<"))
@@ -132,13 +138,21 @@ def run(prog, rep):
             for x in subterms(a[2]):
                 if x[0] == "call" and x[1].endswith("from_single_tree") and x[2] and x[2][0] == tree:
                     ctx_ok = True
+                # the multi-formula pipeline applied to the one-element list: the context of all (= the one) validated trees
+                if x[0] == "call" and x[1].endswith("from_multiple_trees") and x[2] and tree[0] == "elem" and pm_strip(x[2][0]) == pm_strip(tree[1]) \
+                        and any(y == pv.term for y in subterms(x[2][0])):
+                    ctx_ok = True
             rep.check(ctx_ok, "C18-O4", "unsafe_ex/context", ev.where(), "fresh context from_single_tree(tree)",
                       f"context argument is {sem.short(a[2], 120)}")
             alg = setalg.Alg()
             rep.check(alg.equivalent(alg.interp(a[3]), setalg.FALSE) and terms.mentions_param(a[3], pn[1]), "C18-O4", "unsafe_ex/steady", ev.where(),
                       "steady-state argument is the empty set of the same graph", f"steady-state argument is {sem.short(a[3], 80)}")
             rets = [r for r in s.returns if r[5] != "try"]
-            rep.check(all(r[0] == ("ctor", "std::prelude::v1::Ok", (ev.term,)) or (r[0][0] == "ctor" and r[0][2] and r[0][2][0] == ev.term) for r in rets),
+            def is_result(v):
+                v = pm_strip(v)
+                # the value of the evaluation, or element 0 of the list of such values over the one-element list of trees
+                return v == ev.term or (v[0] == "index" and v[2] == ("lit", 0) and pm_strip(v[1])[0] == "collect" and pm_strip(v[1])[2] == ev.term)
+            rep.check(all(r[0][0] == "ctor" and r[0][2] and is_result(r[0][2][0]) for r in rets),
                       "C18-O4", "unsafe_ex/result", where, "raw result returned", f"returns {[sem.short(r[0], 80) for r in rets]}")
         # the standard pipeline uses the same validator
         ss = eng.summary(std)
